@@ -976,16 +976,18 @@ func parseClause(fc *FuncContract, word, rest, file string, line int) error {
 		}
 	case "modifies":
 		// expand framesets
-		var exp []string
-		for _, part := range strings.Split(rest, ",") {
-			part = strings.TrimSpace(part)
-			if fs, ok := framesets[part]; ok {
-				exp = append(exp, fs)
-			} else {
-				exp = append(exp, part)
+		for round := 0; round < 6; round++ {
+			var exp []string
+			for _, part := range strings.Split(rest, ",") {
+				part = strings.TrimSpace(part)
+				if fs, ok := framesets[part]; ok {
+					exp = append(exp, fs)
+				} else {
+					exp = append(exp, part)
+				}
 			}
+			rest = strings.Join(exp, ", ")
 		}
-		rest = strings.Join(exp, ", ")
 		items, err := parseModItems(rest)
 		if err != nil {
 			return err
